@@ -39,6 +39,7 @@ type Term struct {
 	key  string
 	smt  string
 	id   int
+	size int64 // size of the term printed as a tree (the DAG is shared, the SMT text is not)
 }
 
 var (
@@ -70,6 +71,13 @@ func intern(t *Term) *Term {
 	termSeq++
 	t.id = termSeq
 	t.key = k
+	t.size = 1
+	for _, a := range t.Args {
+		t.size += a.size
+		if t.size > 1<<50 {
+			t.size = 1 << 50
+		}
+	}
 	termTable[k] = t
 	return t
 }
@@ -82,8 +90,11 @@ var (
 )
 
 func (t *Term) IsConst() bool { return t.Op == "const" }
-func (t *Term) IsTrue() bool  { return t == TTrue }
-func (t *Term) IsFalse() bool { return t == TFalse }
+
+// TreeSize is the number of nodes of the term printed as a tree.
+func (t *Term) TreeSize() int64 { return t.size }
+func (t *Term) IsTrue() bool    { return t == TTrue }
+func (t *Term) IsFalse() bool   { return t == TFalse }
 
 func BoolConst(b bool) *Term {
 	if b {
